@@ -231,7 +231,10 @@ fn shadow_mod_name(k: u32, last: bool) -> String {
 }
 
 fn insert_shadow_module(items: &mut Vec<Item>, k: u32, rng: &mut Rng) -> bool {
-    let types = bridge_types(items);
+    // canonical order: the choice must not depend on the declaration order other edits may have permuted
+    let mut types = bridge_types(items);
+    types.sort();
+    types.dedup();
     if types.is_empty() {
         return false;
     }
@@ -378,6 +381,29 @@ fn remove_nonbridge(items: &mut Vec<Item>) {
     }
 }
 
+/// Order-insensitive fingerprint of a source state: items of every module sorted by their token text.
+/// Two states with the same fingerprint are the same program up to declaration order.
+fn canonical(items: &[Item]) -> String {
+    use quote::ToTokens;
+    // (items added by insert_nonbridge are left out: they lie outside the bridge, their own oracle is D4)
+    let mut parts: Vec<String> = items
+        .iter()
+        .filter(|i| !has_mark(item_attrs(i)))
+        .map(|i| match i {
+            Item::Mod(m) => {
+                let attrs: String = m.attrs.iter().map(|a| a.to_token_stream().to_string()).collect::<Vec<_>>().join(" ");
+                match &m.content {
+                    Some((_, inner)) => format!("{} mod {} {{ {} }}", attrs, m.ident, canonical(inner)),
+                    None => format!("{} mod {};", attrs, m.ident),
+                }
+            }
+            other => other.to_token_stream().to_string(),
+        })
+        .collect();
+    parts.sort();
+    parts.join("\n")
+}
+
 fn main() {
     let args: Vec<String> = std::env::args().skip(1).collect();
     let mut entry = None;
@@ -463,4 +489,5 @@ fn main() {
     // one item per line keeps diffs of the *source* readable; the token stream is unchanged
     let out_path = out.expect("--out");
     std::fs::write(&out_path, text + "\n").expect("write");
+    std::fs::write(format!("{}.canon", out_path), canonical(&file.items)).expect("write canon");
 }
